@@ -599,4 +599,89 @@ class Enumerated(Part):
             check_codes(ctx, d)
 
 
-PARTS = [Generated(), Enumerated(), StyleCodes(), Concurrent(), ConcurrentGenerated(), FirstUseInterrupted()]
+class SixteenAll(Part):
+    name = "sixteen-all"
+    custom = True
+    exhaustive = True
+    rule = ("quick tier only (the thorough `enumerated` part covers it): all 16,777,216 RGB colours (sharded by red channel) x {standard, windows}: the result is one of the 16 entries "
+            "and no entry of that palette is nearer (minimum distance recomputed with vectorised integer arithmetic); non-trivial (distinct by construction) = colours whose two best "
+            "standard-palette distances differ by <5%")
+    budget = {"quick": (16, 1), "thorough": (0, 0)}
+
+    def run_shard(self, tier, shard, nshards, seed, stats, deadline, known):
+        import time
+        from rich.color import Color, ColorSystem, ColorType
+
+        try:
+            import numpy as np
+        except Exception:  # noqa
+            stats.samples.append((1, {"shard": shard, "skipped": "numpy not importable: the full sweep is left to the thorough tier"}, "range"))
+            stats.done += 1
+            return
+        pals = palettes()
+        ctx = Ctx()
+        systems = [("STANDARD", ColorSystem.STANDARD, np.array(pals[0], dtype=np.int64), pals[0]), ("WINDOWS", ColorSystem.WINDOWS, np.array(pals[1], dtype=np.int64), pals[1])]
+        n = nt = 0
+        failing = None
+        gb = np.array([(g, b) for g in range(256) for b in range(256)], dtype=np.int64)
+        from_rgb = Color.from_rgb
+        for r in range(shard, 256, nshards):
+            minds = []
+            for sysname, system, p, pal in systems:
+                rm = (r + p[None, :, 0]) // 2
+                dr = r - p[None, :, 0]
+                dg = gb[:, None, 0] - p[None, :, 1]
+                db = gb[:, None, 1] - p[None, :, 2]
+                dm = (((512 + rm) * dr * dr) >> 8) + 4 * dg * dg + (((767 - rm) * db * db) >> 8)
+                if sysname == "STANDARD":
+                    srt = np.sort(dm, axis=1)
+                    nt += int(((srt[:, 1] > 0) & ((srt[:, 1] - srt[:, 0]) * 20 <= srt[:, 1])).sum())
+                    minds.append((dm, srt[:, 0]))
+                else:
+                    minds.append((dm, dm.min(axis=1)))
+            for (sysname, system, p, pal), (dm, mn) in zip(systems, minds):
+                mn = mn.tolist()
+                i = 0
+                for g in range(256):
+                    for b in range(256):
+                        color = from_rgb(r, g, b)
+                        try:
+                            d = color.downgrade(system)
+                        except Exception as exc:  # noqa
+                            ctx.violation("unexpected-exception", "C18/exc/%s" % type(exc).__name__, "%r -> %s raised %r" % (color, sysname, exc))
+                            failing = (r, g, b)
+                            break
+                        num = d.number
+                        if d.type not in (ColorType.STANDARD, ColorType.WINDOWS) or num is None or not 0 <= num <= 15:
+                            ctx.violation("gamut", "C18/gamut/%s" % sysname.lower(), "%r -> %s gave %r" % (color, sysname, d))
+                            failing = (r, g, b)
+                            break
+                        if dm[i, num] != mn[i]:
+                            ctx.violation("nearest", "C18/nearest/%s" % sysname.lower(), "%r -> %s picked %d at distance %d, minimum is %d" % (color, sysname, num, int(dm[i, num]), mn[i]))
+                            failing = (r, g, b)
+                            break
+                        i += 1
+                    if failing:
+                        break
+                n += i
+                if failing:
+                    break
+            if failing:
+                break
+            if time.time() > deadline:
+                stats.capped = True
+                break
+        stats.evaluations += n
+        stats.nontrivial_count_distinct += nt
+        if not stats.capped:
+            stats.done += 1
+        stats.samples.append((1, {"shard": shard, "conversions": n, "red": "%d, %d, ..." % (shard, shard + nshards)}, "range"))
+        for v in ctx.violations:
+            if v.sig not in stats.found:
+                stats.found[v.sig] = {"spec": {"rgb": list(failing)}, "clause": v.clause, "detail": v.detail, "size": 1, "part": self.name}
+
+    def replay(self, spec, ctx):
+        return Enumerated().replay(spec, ctx)
+
+
+PARTS = [Generated(), Enumerated(), SixteenAll(), StyleCodes(), Concurrent(), ConcurrentGenerated(), FirstUseInterrupted()]
